@@ -42,7 +42,7 @@ def run(ctx):
         det.append(doms)
         if not (len(doms) == 1 and re.match(r'^ItemPath::is_empty\(\w+\)$', doms[0])):
             ok_early = False
-    ctx.ob(['C14'], 'R-DOM', 'C14-D1|skips-only-root', ok_early and len(early) == 1,
+    ctx.ob(['C14', 'C13'], 'R-DOM', 'C14-D1|skips-only-root', ok_early and len(early) == 1,
            'the root module (built-in types, no input file) is skipped — key.is_empty() returns Ok without writing — and that is the only way to return Ok without writing the file: %s' % det, where)
     # path = out_dir + segments + .rs   (built in write_module itself or in a helper whose result is the path written)
     G, call_args_ = wm, None
